@@ -95,7 +95,10 @@ Qed.
 Lemma dial_shape_canon p t :
   dial_shape LISTEN (canon p t) = if t =? TCP then SvTcp p else SvWs p.
 Proof.
-  unfold canon, dial_shape, LISTEN, LISTEN0. destruct (t =? TCP); cbn [last app existsb V.C10.Model.maddr_eqb V.C10.Model.comp_eqb V.C10.Model.ipclass_eqb andb orb].
+  unfold canon, dial_shape, LISTEN, LISTEN0.
+  destruct (t =? TCP);
+    cbn [last app existsb V.C10.Model.maddr_eqb V.C10.Model.comp_eqb V.C10.Model.ipclass_eqb andb orb
+         V.C10.Model.strip_p2p V.C10.Model.is_p2p].
   - assert (100 + p =? 1 = false) as -> by lia. cbn [andb orb is_host]. reflexivity.
   - assert (100 + p =? 1 = false) as -> by lia. cbn [andb orb is_host]. reflexivity.
 Qed.
